@@ -41,6 +41,9 @@ ValuesOf(o) ==
       [] o = "--multi" -> {<<"3">>, <<"0">>, <<"a">>}
       [] o = "--sort" -> {<<"5">>}
       [] o = "--border" -> {<<"sharp">>, <<"none">>, <<"bogus">>, <<>>}
+      [] o = "--tmux" -> {<<"center">>, <<"bottom", ",", "40", "%">>, <<"left", ",", "30">>, <<"80", "%", ",", "60", "%">>,
+                          <<"border-native">>, <<"center", ",", "border-native">>, <<"top", ",", "80", "%", ",", "40", "%">>,
+                          <<"bogus">>, <<"right", ",", "256", "%">>, <<>>}
       [] o = "--color" -> {<<"fg", ":", "1">>, <<"bg", ":", "2">>, <<"fg", ":", "3", ",", "bg", ":", "5">>,
                            <<"fg", ":", "256">>, <<"bogus">>, <<>>}
 Short(o) == CASE o = "--query" -> "-q" [] o = "--filter" -> "-f" [] o = "--delimiter" -> "-d" [] o = "--nth" -> "-n"
@@ -63,7 +66,8 @@ Family(occ) == LET o == Canon(occ[1].o) IN
       [] o \in {"--cycle", "--no-cycle"} -> "cycle" [] o \in {"--tac", "--no-tac"} -> "tac"
       [] o \in {"-e", "--exact", "+e", "--no-exact"} -> "exact"
       [] o \in {"-i", "--ignore-case", "+i", "--no-ignore-case", "--smart-case"} -> "case"
-      [] o \in {"--tiebreak", "--scheme"} -> "criteria" [] o \in {"--height", "--no-height"} -> "height"
+      [] o \in {"--tiebreak", "--scheme"} -> "criteria"
+      [] o \in {"--height", "--no-height", "--tmux", "--no-tmux"} -> "display"
       [] o \in {"--history", "--history-size", "--no-history"} -> "history"
       [] o \in {"--expect", "--no-expect"} -> "expect" [] o \in {"--border", "--no-border"} -> "border"
       [] o \in {"--help", "-h", "--version"} -> "exit"
@@ -122,6 +126,7 @@ Assigns(occ) == LET o == Canon(occ[1].o) IN
       [] o = "--nth" -> {"nth"} [] o \in {"--height", "--no-height"} -> {"height"}
       [] o = "--history" -> {"hon", "hpath"} [] o = "--no-history" -> {"hon", "hpath"} [] o = "--history-size" -> {"hsize"}
       [] o = "--walker" -> {"walker"} [] o = "--tabstop" -> {"tabstop"} [] o = "--pointer" -> {"pointer"}
+      [] o \in {"--tmux", "--no-tmux"} -> {"tmux"}
       [] o \in {"--border", "--no-border"} -> {"border"} [] o \in {"--help", "-h", "--version"} -> {"exit"}
       [] OTHER -> {}
 (* last occurrence wins, and what the earlier occurrence set elsewhere persists (incl. --history-size with a later
@@ -133,7 +138,17 @@ LastWins == (Keep /\ mode = "enum" /\ j > 0 /\ ~Whole.err) =>
                    /\ \A f \in Assigns(OccSeq[i]) \ Assigns(OccSeq[j]) : Whole.cfg[f] = a.cfg[f]
 (* an error anywhere is an error of the whole: no later source repairs an earlier invalid one *)
 ErrorsStick == (Keep /\ mode = "enum" /\ j > 0 /\ p \in {2, 3, 5}) =>
-                   (Source(St(Default, NoPend), OccSeq[i]).err => Whole.err)
+                   (Source(St0, OccSeq[i]).err => Whole.err)
+(* --tmux against --height: whichever of the two is written later wins, in whatever sources they are (DOCUMENTED) *)
+IsTmux(occ) == Canon(occ[1].o) = "--tmux"
+IsHeight(occ) == Canon(occ[1].o) = "--height"
+Popup(c) == c.tmux.on /\ c.tidx >= c.hidx
+LaterWins == (Keep /\ mode = "enum" /\ j > 0 /\ ~Whole.err) =>
+                 LET a == Alone(OccSeq[i]) b == Alone(OccSeq[j]) IN
+                 (~a.err /\ ~b.err) =>
+                     /\ (IsHeight(OccSeq[i]) /\ IsTmux(OccSeq[j])) => Popup(Whole.cfg)
+                     /\ (IsTmux(OccSeq[i]) /\ IsHeight(OccSeq[j])) => ~Popup(Whole.cfg)
+                     /\ (IsTmux(OccSeq[j]) /\ ~IsHeight(OccSeq[i])) => Popup(Whole.cfg)
 TypeOK == mode \in {"enum", "sim"}
 
 (* ---- export ---- *)
